@@ -428,3 +428,61 @@ fn c02_cli_seeds_over_existing_output() {
     }
     println!("COMPANION-OK cases={}", cases);
 }
+
+// ------------------------------------------------------------------------------------------ C14
+/// refused operations leave the output untouched: {output absent, existing file} x {no flag, --force-create, --seed-output} x
+/// {valid archive, wrong --verify-header, corrupted header}, for clone; existing output without --force-create for compress.
+/// A refusal = non-zero exit; then an existing output must keep its exact bytes and an absent one must stay absent (for header /
+/// archive refusals).  A valid, permitted combination must succeed (control).
+#[test]
+fn c14_refusals_leave_the_output_untouched() {
+    let dir = Tmp::new("c14");
+    let mut rng = Rng(0x1414_c11c_0000_0031);
+    let source: Vec<u8> = (0..5).flat_map(|i| block(&mut rng, 4096, true, i as u8)).collect();
+    let src = dir.path("s.src");
+    std::fs::write(&src, &source).unwrap();
+    let arch = dir.path("a.cba");
+    let st = Command::new(BITA).arg("compress").arg("-i").arg(&src).args(["--fixed-size", "4096", "--compression", "none"]).arg(&arch).output().unwrap();
+    if !st.status.success() { witness("C11", "bita compress failed", String::from_utf8_lossy(&st.stderr).into()); }
+    let good = std::fs::read(&arch).unwrap();
+    let bad = dir.path("bad.cba");
+    { let mut b = good.clone(); b[20] ^= 0x40; std::fs::write(&bad, &b).unwrap(); }
+    let prior: Vec<u8> = (0..3).flat_map(|i| block(&mut rng, 5000, true, 40 + i as u8)).collect();
+    let mut cases = 0;
+    for existing in [false, true] {
+        for flag in ["", "--force-create", "--seed-output"] {
+            for kind in ["valid", "wrong-pin", "corrupt"] {
+                let out = dir.path("out.bin");
+                let _ = std::fs::remove_file(&out);
+                if existing { std::fs::write(&out, &prior).unwrap(); }
+                let mut cmd = Command::new(BITA);
+                cmd.arg("clone");
+                if !flag.is_empty() { cmd.arg(flag); }
+                if kind == "wrong-pin" { cmd.arg("--verify-header").arg("ab".repeat(64)); }
+                let o = cmd.arg(if kind == "corrupt" { &bad } else { &arch }).arg(&out).output().unwrap();
+                let label = format!("clone existing={} flag={:?} archive={}", existing, flag, kind);
+                let must_refuse = kind != "valid" || (existing && flag.is_empty());
+                if must_refuse {
+                    if o.status.success() { witness("C14", "an operation that must be refused reported success", label.clone()); }
+                    match (existing, std::fs::read(&out)) {
+                        (true, Ok(b)) => if b != prior { witness("C14", "a refused clone changed the existing output", format!("{} (length {} -> {})", label, prior.len(), b.len())); },
+                        (true, Err(_)) => witness("C14", "a refused clone removed the existing output", label.clone()),
+                        (false, Ok(_)) => witness("C14", "a refused clone created the output file", label.clone()),
+                        (false, Err(_)) => {}
+                    }
+                } else {
+                    if !o.status.success() { witness("C14", "a permitted clone was refused", format!("{} :: {}", label, String::from_utf8_lossy(&o.stderr))); }
+                    if std::fs::read(&out).ok().as_deref() != Some(&source[..]) { witness("C03", "a permitted clone did not produce the source", label.clone()); }
+                }
+                cases += 1;
+            }
+        }
+    }
+    // compress over an existing archive without --force-create
+    let keep = std::fs::read(&arch).unwrap();
+    let o = Command::new(BITA).arg("compress").arg("-i").arg(&src).args(["--fixed-size", "2048", "--compression", "none"]).arg(&arch).output().unwrap();
+    if o.status.success() { witness("C14", "compress over an existing output without --force-create reported success", "".into()); }
+    if std::fs::read(&arch).unwrap() != keep { witness("C14", "a refused compress changed the existing output", "".into()); }
+    cases += 1;
+    println!("COMPANION-OK cases={}", cases);
+}
